@@ -178,6 +178,21 @@ func genHash(r *Rng) string {
 }
 
 var instVocab = []string{"", "foo", "main", "a b", "ünï", "日本", "ac", "cas", "x.y", "operations-x", "Blobs", "upload", "%2F"}
+
+// instance-name segments that merely END, START with or CONTAIN a reserved word: REAPI-conformant
+// (only a segment EQUAL to the word is reserved), so every parser has to look through them
+var affixSegs = []string{"ci-uploads", "my_uploads", "eu", "nightly.uploads", "uploads2", "xblobs", "compressed-blobs-old", "blobs.d",
+	"uploads-", "-blobs", "compressed-blobs2", "Uploads", "blobs_", "pre.compressed-blobs"}
+
+// an instance name of 1-3 such segments, e.g. "my_uploads/eu"
+func affixInst(r *Rng) string {
+	var segs []string
+	for i, n := 0, 1+r.Intn(3); i < n; i++ {
+		segs = append(segs, affixSegs[r.Intn(len(affixSegs))])
+	}
+	return strings.Join(segs, "/")
+}
+
 var reserved = []string{"blobs", "uploads", "compressed-blobs", "actions", "actionResults", "operations", "capabilities"}
 var sizeTexts = []string{"0", "1", "5", "42", "+5", "-1", "-0", "007", "9223372036854775807", "9223372036854775808", "-9223372036854775808",
 	"", "1_0", "0x10", " 5", "5 ", "1e3", "٣", "5\n", "--5", "+", "-", "18446744073709551616", "99999"}
@@ -188,8 +203,12 @@ func genName(r *Rng, write bool) (name string, conformant bool, hash string, siz
 	conformant = true
 	class = "conformant"
 	var segs []string
+	affix := false
 	for i, n := 0, r.Intn(4); i < n; i++ {
-		if r.Chance(12) {
+		if r.Chance(30) {
+			segs = append(segs, affixSegs[r.Intn(len(affixSegs))])
+			affix = true
+		} else if r.Chance(12) {
 			w := reserved[r.Intn(len(reserved))]
 			segs = append(segs, w)
 			// only "uploads" (write) / "blobs", "compressed-blobs" (read) actually confuse the parser
@@ -267,6 +286,9 @@ func genName(r *Rng, write bool) (name string, conformant bool, hash string, siz
 		conformant, class = false, "truncated"
 	}
 	name = strings.Join(segs, "/")
+	if conformant && affix {
+		class = "conformant-affix-instance"
+	}
 	if !write && !z && r.Chance(20) && conformant {
 		name = "/" + name // "{instance}/blobs/..." with an empty instance
 	}
@@ -515,7 +537,7 @@ func bsDriver(seed uint64, n int, outV, outJSON string, _ []string) {
 	log.SetOutput(io.Discard)
 	r := &Rng{S: seed}
 	rep := NewReport("bytestream", seed)
-	rep.Rule = "resource names assembled from parts (instance segments incl. reserved words and unicode, uuid, keyword, compressor, hash, size text incl. signs/overflow/garbage, trailing metadata, truncation) through parseWriteResource/parseReadResource; real ByteStream.Write calls over bufconn: every cut of 1-3 byte payloads into up to 4 (possibly empty) messages x finish_write placement x present/absent (oracle only, a sample goes to Coq), generated chunkings incl. one-byte chunks of larger and zstd payloads, with mutations (non-zero first offset, changed/empty resource name, extra/missing bytes, wrong declared size or hash, finish_write early, messages after finish_write, oversized, empty stream, garbage zstd); QueryWriteStatus for present and absent blobs with instance prefixes and metadata. Non-trivial = accepted parse or a Write that reached the protocol loop; distinct = distinct canonical texts among those"
+	rep.Rule = "resource names assembled from parts (instance segments incl. reserved words and unicode, uuid, keyword, compressor, hash, size text incl. signs/overflow/garbage, trailing metadata, truncation) through parseWriteResource/parseReadResource; real ByteStream.Write calls over bufconn: every cut of 1-3 byte payloads into up to 4 (possibly empty) messages x finish_write placement x present/absent (oracle only, a sample goes to Coq), generated chunkings incl. one-byte chunks of larger and zstd payloads, with mutations (non-zero first offset, changed/empty resource name, extra/missing bytes, wrong declared size or hash, finish_write early, messages after finish_write, oversized, empty stream, garbage zstd); QueryWriteStatus for present and absent blobs with instance prefixes and metadata; instance names whose segments merely start, end with or contain a reserved word (ci-uploads, my_uploads/eu, nightly.uploads, uploads2, xblobs, compressed-blobs-old, blobs.d, ...) in parser, Write, QueryWriteStatus and real ByteStream.Read cases, with the direct oracle that such a conformant name is accepted and the blob stored / served byte for byte. Non-trivial = accepted parse or a Write that reached the protocol loop; distinct = distinct canonical texts among those"
 	var cases []string
 	add := func(coq, text string, nontrivial bool) {
 		cases = append(cases, coq)
@@ -706,6 +728,9 @@ func bsDriver(seed uint64, n int, outV, outJSON string, _ []string) {
 			inst := ""
 			if r.Chance(30) {
 				inst = []string{"main", "a/b", "ünï", "blobs", "x/compressed-blobs/y"}[r.Intn(5)]
+			} else if r.Chance(35) {
+				inst = affixInst(r)
+				rep.Count("write.affix-instance")
 			}
 			meta := ""
 			if r.Chance(20) {
@@ -715,7 +740,7 @@ func bsDriver(seed uint64, n int, outV, outJSON string, _ []string) {
 			// chunking
 			var parts []int
 			switch q := r.Intn(100); {
-			case q < 20 && len(payload) <= 64: // one-byte chunks
+			case q < 20 && len(payload) <= 64 && len(payload) > 0: // one-byte chunks (an empty payload would give no message at all)
 				for range payload {
 					parts = append(parts, 1)
 				}
@@ -830,6 +855,65 @@ func bsDriver(seed uint64, n int, outV, outJSON string, _ []string) {
 			}
 			add(coq, text, w.nameOK)
 
+		case p < 90: // ---- ByteStream.Read under a REAPI-conformant instance name whose segments contain reserved words
+			f := pickFx()
+			blob := freshBlob(r, []int{1, 2, 5, 33, 200, 4097}[r.Intn(6)])
+			h, size := sha(blob), int64(len(blob))
+			if err := f.c.Put(context.Background(), cache.CAS, h, size, bytes.NewReader(blob)); err != nil {
+				panic(err)
+			}
+			z := r.Chance(40)
+			inst := affixInst(r)
+			if r.Chance(25) {
+				inst += "/" + []string{"main", "uploads", "ünï", "a b"}[r.Intn(4)] // "uploads" is not reserved in a Read name
+			}
+			name := inst + "/blobs/" + h + fmt.Sprintf("/%d", size)
+			if z {
+				name = inst + "/compressed-blobs/zstd/" + h + fmt.Sprintf("/%d", size)
+			}
+			ctx, cancel := context.WithTimeout(context.Background(), writeTimeout)
+			var got []byte
+			st, rerr := f.bs.Read(ctx, &bytestream.ReadRequest{ResourceName: name})
+			for rerr == nil {
+				var m *bytestream.ReadResponse
+				m, rerr = st.Recv()
+				if rerr == nil {
+					got = append(got, m.Data...)
+				}
+			}
+			cancel()
+			rep.Evaluations++
+			rep.Count("read.affix-instance")
+			if z {
+				rep.Count("read.zstd")
+			}
+			text := fmt.Sprintf("Read(%q) of a stored %d byte blob -> %d bytes, err=%v", name, size, len(got), rerr)
+			// direct oracle: the name is conformant, the blob is there: it must be served, byte for byte
+			if rerr != io.EOF {
+				rep.Fail(c, "Read under a conformant instance name (segments merely containing a reserved word) failed", text)
+			} else {
+				data := got
+				if z {
+					d, derr := zdec.DecodeAll(got, nil)
+					if derr != nil {
+						rep.Fail(c, "Read of compressed-blobs/zstd returned undecodable data", text)
+					}
+					data = d
+				}
+				if !bytes.Equal(data, blob) {
+					rep.Fail(c, "Read under a conformant instance name returned other bytes than the stored blob", text)
+				}
+			}
+			oh, os_, oc, code := server.VerifParseReadResource(name)
+			zi := 0
+			if z {
+				zi = 1
+			}
+			if code != 0 || oh != h || os_ != size || oc != zi {
+				rep.Fail(c, "parseReadResource does not yield the embedded hash/size/compressor of a conformant name", fmt.Sprintf("%q", name))
+			}
+			add(fmt.Sprintf("BParseR %s %s", cstr(name), parsedObs(oh, os_, oc, code)), text, code == 0)
+
 		default: // ---- QueryWriteStatus
 			f := pickFx()
 			blob := freshBlob(r, []int{0, 1, 5, 33}[r.Intn(4)])
@@ -842,6 +926,10 @@ func bsDriver(seed uint64, n int, outV, outJSON string, _ []string) {
 			}
 			z := r.Chance(40)
 			inst := []string{"", "main", "a/b/c", "blobs", "日本"}[r.Intn(5)]
+			if r.Chance(40) {
+				inst = affixInst(r)
+				rep.Count("qws.affix-instance")
+			}
 			meta := []string{"", "/meta", "/x/y"}[r.Intn(3)]
 			name := wname(inst, z, h, size, meta)
 			class := "good"
@@ -849,7 +937,7 @@ func bsDriver(seed uint64, n int, outV, outJSON string, _ []string) {
 			case 0:
 				name, class = wname(inst, z, h, size+1, meta), "other-size"
 			case 1:
-				name, class = strings.Replace(name, "uploads", "upload", 1), "bad-name"
+				name, class = strings.Replace(name, "uploads/123e4567", "upload/123e4567", 1), "bad-name" // the keyword segment, not an instance segment containing it
 			case 2:
 				name, class = wname(inst, z, strings.ToUpper(h), size, meta), "bad-hash"
 			}
